@@ -154,11 +154,21 @@ def bpVecSrcT (g : Grid) (vsd : Nat) : List Trip :=
   g.hf.flatMap (fun h => (List.range vsd).map (fun k =>
     (h.face, h.cell * vsd + k, if g.isNeu h.face then (dvec g h).get k else 0)))
 
-/-- inputs on which IEEE arithmetic leaves the rationals (division by zero other than the
-    `1/0 = inf, 1/inf = 0` pattern): the correspondence check skips and counts these. -/
+def rabs (x : Rat) : Rat := if x < 0 then -x else x
+
+def sumAbsInv : List Rat → Rat
+  | [] => 0
+  | t :: r => rabs (1 / t) + sumAbsInv r
+
+/-- Knife edges, where binary64 and exact arithmetic part ways: a vanishing cell-face distance, a half
+    transmissibility that vanishes (IEEE: `1/0 = inf`) or nearly does (margin 1e-6), a face without
+    cells, or a harmonic sum `Σ 1/t_half` that cancels (relative margin 1e-6).  The correspondence check
+    skips and counts these inputs; the theorems do not depend on this function. -/
 def degenerate (g : Grid) : Bool :=
-  g.hf.any (fun h => (dvec g h).dot (dvec g h) == 0 || tHalf g h == 0)
-  || (List.range g.nf).any (fun f => (hfOf g f).isEmpty || sumInv ((hfOf g f).map (tHalf g)) == 0)
+  g.hf.any (fun h => (dvec g h).dot (dvec g h) == 0 || rabs (tHalf g h) * 1000000 < 1)
+  || (List.range g.nf).any (fun f =>
+        (hfOf g f).isEmpty ||
+        rabs (sumInv ((hfOf g f).map (tHalf g))) * 1000000 ≤ sumAbsInv ((hfOf g f).map (tHalf g)))
 
 /-! ### dense meaning of triplet lists -/
 
